@@ -162,3 +162,227 @@ Proof.
     injection Eh as Ep Ed. apply (Cross r2 r1 H2 H1 I2 I1); [now symmetry|]. unfold r_did. now rewrite Ed.
   - now apply (NoDup_map_inj r_pd R).
 Qed.
+
+(* ------------------------------------------------------------------ *)
+(* the index after re-keying *)
+Lemma rekey_single_perm K n dold e : NoDup (map fst K) -> In (n, dold) K ->
+  exists K0, Permutation K ((n, dold) :: K0) /\ Permutation (map (rekey [n] e) K) ((n, e) :: K0).
+Proof.
+  intros ND Hin. destruct (in_split _ _ Hin) as (X & Y & ->). exists (X ++ Y). split; [symmetry; apply Permutation_middle|].
+  assert (Hid : forall Z, (forall k, In k Z -> fst k <> n) -> map (rekey [n] e) Z = Z).
+  { intros Z HZ. rewrite <- (map_id Z) at 2. apply map_ext_in. intros k Hk. unfold rekey, inb. cbn [existsb].
+    destruct (Nat.eqb (fst k) n) eqn:Em; [apply Nat.eqb_eq in Em; now apply HZ in Hk|reflexivity]. }
+  rewrite map_app in *. cbn [map fst] in *. rewrite (Hid X), (Hid Y).
+  - unfold rekey, inb. cbn [existsb fst]. rewrite Nat.eqb_refl. cbn [orb]. symmetry. apply Permutation_middle.
+  - intros k Hk Ek. apply NoDup_remove_2 in ND. apply ND. apply in_or_app. right. rewrite <- Ek. now apply in_map.
+  - intros k Hk Ek. apply NoDup_remove_2 in ND. apply ND. apply in_or_app. left. rewrite <- Ek. now apply in_map.
+Qed.
+
+Section IdxAddL.
+  Variables (d : did) (ns : list nat).
+  Let upd := fun e : did * list nat => if did_eqb (fst e) d then (fst e, snd e ++ ns) else e.
+
+  Lemma idx_updl_id ix : ~ In d (map fst ix) -> map upd ix = ix.
+  Proof.
+    induction ix as [|e ix IH]; intros H; [reflexivity|]. cbn [map In] in *. rewrite IH by tauto. f_equal.
+    unfold upd. destruct (did_eqb (fst e) d) eqn:E; [|reflexivity]. apply did_eqb_eq in E. tauto.
+  Qed.
+
+  Lemma idx_updl_flat ix : NoDup (map fst ix) -> In d (map fst ix) ->
+    Permutation (idx_flat (map upd ix)) (map (fun m => (m, d)) ns ++ idx_flat ix).
+  Proof.
+    induction ix as [|e ix IH]; intros ND H; [contradiction|]. cbn [map] in *.
+    inversion ND as [|x l Hx ND' E0]; subst. rewrite !idx_flat_cons.
+    unfold upd at 1 2. destruct (did_eqb (fst e) d) eqn:E.
+    - apply did_eqb_eq in E. rewrite E in Hx. rewrite (idx_updl_id ix Hx). cbn [fst snd]. rewrite map_app, E.
+      rewrite <- app_assoc. apply Permutation_app_swap_app.
+    - destruct H as [H|H]; [rewrite H, did_eqb_refl in E; discriminate|].
+      rewrite (IH ND' H). apply Permutation_app_swap_app.
+  Qed.
+
+  Lemma idx_updl_keys ix : map fst (map upd ix) = map fst ix.
+  Proof. rewrite map_map. apply map_ext. intros e. unfold upd. now destruct (did_eqb (fst e) d). Qed.
+End IdxAddL.
+
+Lemma idx_split_group dold ix : NoDup (map fst ix) ->
+  Permutation (idx_flat ix)
+    (map (fun m => (m, dold)) (idx_get dold ix) ++ idx_flat (filter (fun en => negb (did_eqb (fst en) dold)) ix)).
+Proof.
+  unfold idx_get. induction ix as [|e0 ix IH]; intros ND; [reflexivity|]. cbn [map] in ND. inversion ND as [|x l Hx ND' E0]; subst.
+  cbn [find filter]. rewrite idx_flat_cons. destruct (did_eqb (fst e0) dold) eqn:E; cbn [negb].
+  - apply did_eqb_eq in E. rewrite E in *. rewrite filter_all_true; [reflexivity|].
+    intros en Hen. apply negb_true_iff. destruct (did_eqb (fst en) dold) eqn:E2; [|reflexivity].
+    apply did_eqb_eq in E2. exfalso. apply Hx. rewrite <- E2. now apply in_map.
+  - rewrite idx_flat_cons, (IH ND'). apply Permutation_app_swap_app.
+Qed.
+
+Lemma idx_move_group_ok ix K dold e :
+  IdxOK ix K -> NoDup (map fst K) -> e <> dold -> idx_get dold ix <> [] ->
+  IdxOK (idx_move_group dold e (idx_get dold ix) ix) (map (rekey (idx_get dold ix) e) K).
+Proof.
+  intros (H1 & H2 & H3) NK Ne Hne. set (cur := idx_get dold ix) in *.
+  set (ix1 := filter (fun en => negb (did_eqb (fst en) dold)) ix).
+  assert (N1 : NoDup (map fst ix1)).
+  { unfold ix1. clear -H1. induction ix as [|e0 ix IH]; [constructor|]. cbn [map] in H1. inversion H1 as [|x l Hx ND' E0]; subst.
+    cbn [filter]. destruct (negb (did_eqb (fst e0) dold)); [|auto]. cbn [map]. constructor; [|auto].
+    intros X. apply Hx. apply in_map_iff in X. destruct X as (y & E & Hy). apply filter_In in Hy. rewrite <- E. apply in_map. tauto. }
+  assert (F1 : Forall (fun en => snd en <> []) ix1).
+  { unfold ix1. rewrite Forall_forall in *. intros en Hen. apply filter_In in Hen. now apply H2. }
+  assert (O1 : ~ In dold (map fst ix1)).
+  { intros X. apply in_map_iff in X. destruct X as (y & E & Hy). apply filter_In in Hy. destruct Hy as [_ Hy].
+    rewrite E, did_eqb_refl in Hy. discriminate. }
+  assert (Ps := idx_split_group dold ix H1). fold cur ix1 in Ps.
+  (* the key list, re-keyed *)
+  assert (PK : Permutation (map (rekey cur e) K) (map (fun m => (m, e)) cur ++ idx_flat ix1)).
+  { rewrite <- H3, Ps, map_app. apply Permutation_app.
+    - rewrite map_map. apply Permutation_refl'. apply map_ext_in. intros m Hm. unfold rekey. cbn [fst].
+      now replace (inb m cur) with true by (symmetry; now apply inb_In).
+    - apply Permutation_refl'. transitivity (map (fun x => x) (idx_flat ix1)); [|apply map_id]. apply map_ext_in. intros [m d0] Hk. unfold rekey. cbn [fst].
+      destruct (inb m cur) eqn:I; [|reflexivity]. exfalso. apply inb_In in I.
+      assert (Y1 : In (m, d0) K). { apply (Permutation_in _ H3). apply (Permutation_in _ (Permutation_sym Ps)). apply in_or_app. now right. }
+      assert (Y2 : In (m, dold) K). { apply (Permutation_in _ H3). apply (Permutation_in _ (Permutation_sym Ps)). apply in_or_app. left. now apply (in_map (fun m0 => (m0, dold))). }
+      assert (X := NoDup_map_inj fst K _ _ NK Y1 Y2 eq_refl). injection X as ->. apply O1. now apply idx_flat_key in Hk. }
+  unfold idx_move_group. fold ix1. destruct (idx_has e ix1) eqn:Eh.
+  - apply idx_has_In in Eh. repeat split.
+    + now rewrite (idx_updl_keys e cur).
+    + apply Forall_forall. intros en Hen. apply in_map_iff in Hen. destruct Hen as (e0 & <- & He0).
+      rewrite Forall_forall in F1. destruct (did_eqb (fst e0) e); [|now apply F1].
+      cbn. intros X. apply app_eq_nil in X. now destruct X.
+    + rewrite (idx_updl_flat e cur ix1 N1 Eh). now symmetry.
+  - assert (Hn : ~ In e (map fst ix1)) by (intros X; apply idx_has_In in X; congruence). repeat split.
+    + rewrite map_app. cbn. apply NoDup_app_intro; auto. { constructor; [intros []|constructor]. }
+      intros x Hx [<-|[]]. contradiction.
+    + apply Forall_app. split; [assumption|]. constructor; [exact Hne|constructor].
+    + rewrite idx_flat_app. cbn. rewrite app_nil_r. rewrite PK. apply Permutation_app_comm.
+Qed.
+
+(* ------------------------------------------------------------------ *)
+(* set_data: the part of op_set_data after new data / new id have been determined *)
+Definition set_data_core (w : world) (ti : nat) (t : tstate) (n : nat) (s : rt)
+           (new_data : option dat) (new_did : option did) (with_clones : option bool) : res * world :=
+  let cur := idx_get (rdid s) (idx t) in
+  let has_clones := Nat.ltb 1 (length cur) in
+  let wc := match with_clones with Some true => true | _ => false end in
+  if has_clones && (match with_clones with None => true | _ => false end)
+  then (Err EAmbiguous, w)
+  else
+    let setd := fun inf => match new_data with Some x => set_dat_i x inf | None => inf end in
+    match new_did with
+    | Some e =>
+        let group := if has_clones && wc then cur else [n] in
+        if existsb (sib_clash (forest_of t) group e) group then (Err EUnique, w)
+        else
+          let f' := relabel group (fun inf => set_did_i e (setd inf)) (forest_of t) in
+          let ix' := if has_clones && wc then idx_move_group (rdid s) e cur (idx t)
+                     else idx_add e n (idx_del (rdid s) n (idx t)) in
+          (Ok [], put_tree w ti (set_all t f' (reg t) ix'))
+    | None =>
+        match new_data with
+        | Some _ =>
+            let group := if wc then cur else [n] in
+            (Ok [], put_tree w ti (set_forest t (relabel group setd (forest_of t))))
+        | None => (Ok [], w)
+        end
+    end.
+
+Lemma existsb_false_forall {X} (p : X -> bool) l : existsb p l = false -> forall x, In x l -> p x = false.
+Proof.
+  intros E x Hx. destruct (p x) eqn:Px; [|reflexivity].
+  assert (Y : existsb p l = true) by (apply existsb_exists; now exists x). congruence.
+Qed.
+
+Lemma WFw_set_data_core w ti t n s new_data new_did wcl :
+  WFw w -> get_tree w ti = Some t -> get_node n (forest_of t) = Some s ->
+  (forall e, new_did = Some e -> e <> rdid s) ->
+  WFw (snd (set_data_core w ti t n s new_data new_did wcl)).
+Proof.
+  intros H Gt Gn Hne. assert (Wt := WFw_tree w ti t H Gt). unfold set_data_core.
+  set (f := forest_of t). set (cur := idx_get (rdid s) (idx t)).
+  destruct (get_node_spec n f s Gn) as (Ps & Rs).
+  assert (Kn : In (n, rdid s) (keys f)) by (rewrite <- Rs; now apply keys_in).
+  assert (Hcur : forall m, In m cur <-> In (m, rdid s) (keys f)) by (intros m; apply (idx_get_keys t m (rdid s) Wt)).
+  assert (Ncur : NoDup cur).
+  { destruct (WF_spelled t Wt) as (_ & _ & _ & _ & G & _). unfold cur, idx_get.
+    destruct (find (fun e => did_eqb (fst e) (rdid s)) (idx t)) as [e0|] eqn:E; [|constructor].
+    apply find_some in E. destruct E as [E _]. rewrite Forall_forall in G. now apply (G e0 E). }
+  destruct (Nat.ltb 1 (length cur) && match wcl with None => true | _ => false end); [exact H|].
+  set (wc := match wcl with Some true => true | _ => false end).
+  set (setd := fun inf => match new_data with Some x => set_dat_i x inf | None => inf end).
+  assert (Hsetd : forall inf, i_did (setd inf) = i_did inf) by (intros inf; unfold setd; now destruct new_data).
+  destruct new_did as [e|].
+  - specialize (Hne e eq_refl).
+    set (G := if Nat.ltb 1 (length cur) && wc then cur else [n]).
+    destruct (existsb (sib_clash f G e) G) eqn:Cl; [exact H|]. cbn [snd]. unfold put_tree.
+    assert (NG : NoDup G) by (unfold G; destruct (Nat.ltb 1 (length cur) && wc); [assumption|constructor; [intros []|constructor]]).
+    assert (HG : forall m, In m G -> In (m, rdid s) (keys f)).
+    { unfold G. destruct (Nat.ltb 1 (length cur) && wc); [intros m Hm; now apply Hcur|intros m [<-|[]]; assumption]. }
+    destruct (WF_rekey_forest t G (fun inf => set_did_i e (setd inf)) e (rdid s) Wt NG (fun _ => eq_refl) HG
+                (existsb_false_forall _ _ Cl)) as (F1 & F2 & F3 & F4 & F5). fold f in F1, F2, F3, F4, F5.
+    unfold setd in F1, F2, F3, F4, F5. cbn beta in F1, F2, F3, F4, F5.
+    apply (WFw_put w ti t); auto.
+    + eapply WF_intro; [reflexivity|exact F1|exact F2| |  |exact F4].
+      * rewrite F3. apply Wt.
+      * rewrite F5. unfold G. destruct (Nat.ltb 1 (length cur) && wc).
+        -- apply idx_move_group_ok; [apply (WF_idx t Wt)|rewrite keys_fst; apply Wt|assumption|].
+           fold cur. intros X. apply Hcur in Kn. now rewrite X in Kn.
+        -- destruct (rekey_single_perm (keys f) n (rdid s) e) as (K0 & P1 & P2); [rewrite keys_fst; apply Wt|assumption|].
+           apply (IdxOK_perm _ ((n, e) :: K0)); [|now symmetry]. apply idx_add_ok. apply idx_del_ok.
+           apply (IdxOK_perm _ (keys f)); [apply (WF_idx t Wt)|assumption].
+    + intros m Hm. left. cbn [forest_of set_all] in Hm. now rewrite F3 in Hm.
+  - destruct new_data as [x|]; [|exact H]. cbn [snd]. unfold put_tree.
+    set (G := if wc then cur else [n]).
+    assert (NG : NoDup G) by (unfold G; destruct wc; [assumption|constructor; [intros []|constructor]]).
+    destruct (WF_relabel_keep t G setd Wt NG Hsetd) as (W' & Ei).
+    apply (WFw_put w ti t); [exact H|exact Gt|exact W'|lia|]. intros m Hm. left.
+    assert (Hm' : In m (ids (relabel G setd (forest_of t)))) by exact Hm. rewrite Ei in Hm'. exact Hm'.
+Qed.
+
+Definition sd_new_data (s : rt) (d : option dat) : option dat :=
+  match d with Some x => if Z.eqb (d_obj x) (i_obj (rinfo s)) then None else Some x | None => None end.
+Definition sd_did' (t : tstate) (nd : option dat) (explicit : option did) : option (option did) :=
+  match nd, explicit with Some x, None => option_map Some (calc_id (calc t) x) | _, e => Some e end.
+Definition sd_new_did (s : rt) (did' : option did) : option did :=
+  match did' with Some e => if did_eqb e (rdid s) then None else Some e | None => None end.
+
+Lemma op_set_data_eq w ti n d explicit wcl :
+  op_set_data w ti n d explicit wcl =
+  match get_tree w ti with
+  | None => (Err EModel, w)
+  | Some t =>
+      match get_node n (forest_of t) with
+      | None => (Err EModel, w)
+      | Some s =>
+          match d, explicit with
+          | None, None => (Err EValue, w)
+          | _, _ => match sd_did' t (sd_new_data s d) explicit with
+                    | None => (Err ECrash, w)
+                    | Some did' => set_data_core w ti t n s (sd_new_data s d) (sd_new_did s did') wcl
+                    end
+          end
+      end
+  end.
+Proof.
+  unfold op_set_data. destruct (get_tree w ti) as [t|]; [|reflexivity].
+  destruct (get_node n (forest_of t)) as [s|]; [|reflexivity].
+  destruct d as [x|]; destruct explicit as [e0|]; reflexivity.
+Qed.
+
+Theorem WFw_op_set_data w ti n d explicit wcl : WFw w -> WFw (snd (op_set_data w ti n d explicit wcl)).
+Proof.
+  intros H. rewrite op_set_data_eq.
+  destruct (get_tree w ti) as [t|] eqn:Gt; [|exact H].
+  destruct (get_node n (forest_of t)) as [s|] eqn:Gn; [|exact H].
+  assert (Core : forall nd did', WFw (snd (set_data_core w ti t n s nd (sd_new_did s did') wcl))).
+  { intros nd did'. apply WFw_set_data_core; try assumption. intros e E. unfold sd_new_did in E.
+    destruct did' as [e1|]; [|discriminate]. destruct (did_eqb e1 (rdid s)) eqn:Q; [discriminate|].
+    injection E as <-. intros X. rewrite X, did_eqb_refl in Q. discriminate. }
+  destruct d as [x|]; destruct explicit as [e0|]; try exact H;
+    (destruct (sd_did' t _ _) as [did'|]; [apply Core|exact H]).
+Qed.
+
+Theorem WFw_op_rename w ti n d : WFw w -> WFw (snd (op_rename w ti n d)).
+Proof.
+  intros H. unfold op_rename. destruct (get_tree w ti) as [t|]; [|exact H].
+  destruct (get_node n (forest_of t)) as [s|]; [|exact H]. destruct (i_isstr (rinfo s)); [|exact H].
+  now apply WFw_op_set_data.
+Qed.
